@@ -91,3 +91,49 @@ add("C03", "exploration",
     "distinct = distinct (packet sequence, chunk plan) pairs.",
     {"quick": ["checked", "fast"], "thorough": ["checked", "fast", "dev"]},
     {"quick": {"compositions": 20000, "single_cuts": 2000, "fixed_read_sizes": 500}, "thorough": {"compositions": 500000}})
+
+# ---------------------------------------------------------------------------------------------
+# Texts for MANIFEST.json (level_claimed.text / level_note / technique), per registered check.
+RM = "runtime monitoring: "
+MANIFEST_TEXT = {
+ "C03": {
+  "text": "Held on every chunking explored: all compositions of short streams (exhaustive), every cut position / read size of a long stream, buffer-boundary alignments, PRNG compositions, against both the reference framing and the model, under a wake-only executor. A bounded exploration of an unbounded input space - appropriate because the reassembly code is a small state machine whose behaviour depends on offsets relative to packet and buffer boundaries, which the sweeps cover systematically.",
+  "note": "Trusted: harness mocks/executor, reference codec, model. Not covered: chunkings of streams longer than those generated; 4-byte remaining length only sampled (thorough tier).",
+  "technique": RM + "differential trace comparison across transport chunkings + lost-wakeup detection at executor quiescence"},
+ "C05": {
+  "text": "Held on all interleavings up to the depth bound (exhaustive) and on long random walks: each future's result is compared with the acknowledgement generated for the packet identifier read off the wire for that operation; pending futures are checked to stay pending.",
+  "note": "Trusted: harness, reference codec, model. Bounded depth / concurrency (<=3-4 concurrent operations exhaustively, 6 in walks).",
+  "technique": RM + "history checking against an executable model (unique markers per operation and acknowledgement), bounded-exhaustive schedule enumeration + random walks"},
+ "C06": {
+  "text": "Held on the full sweep QoS x every legal reason code x forms x late polling x companion traffic, on all bounded interleavings and on random walks; the wire is decoded by an independent decoder and checked against the handshake rules.",
+  "note": "Trusted: harness, reference codec, model.",
+  "technique": RM + "wire-trace checking with an independent decoder + result/reason-code oracle"},
+ "C07": {
+  "text": "Held on all bounded interleavings of subscribes, SUBACKs, inbound PUBLISH packets with every subscription-identifier situation, stream operations and cancellations, and on random walks with up to 12 streams.",
+  "note": "Trusted: harness, reference codec, model. Stream contents are compared through every public accessor of PublishData.",
+  "technique": RM + "exactly-once / ordering check of per-stream item sequences against a model"},
+ "C08": {
+  "text": "Held on all inbound sequences up to the length bound (exhaustive over a 38-symbol alphabet) and random longer ones: acknowledgements on the wire matched one-to-one, in order, with the injected packets.",
+  "note": "Trusted: harness, reference codec.",
+  "technique": RM + "one-to-one in-order matching of wire acknowledgements against injected packets"},
+ "C09": {
+  "text": "Held on all sequences of QoS 2 deliveries / re-deliveries / releases for three identifiers up to the length bound, and on random walks with other traffic.",
+  "note": "Trusted: harness, reference codec, model of the set of unreleased identifiers.",
+  "technique": RM + "exactly-once check of stream items against a model of unreleased QoS 2 identifiers"},
+ "C10": {
+  "text": "Held on all histories up to the depth bound for R in {1,2,3}, on fill-to-the-limit runs for larger R including 65535/absent, with conservation checked at every step through hook H3 and by black-box probes.",
+  "note": "Trusted: harness, model; H3 snapshots are auxiliary (the black-box probe decides on its own). Debug and release arithmetic both run.",
+  "technique": RM + "conservation invariant (hooked state) + black-box quota probes over enumerated histories"},
+ "C13": {
+  "text": "Each terminating cause was injected in each enumerated session state and the returned value compared with the documented outcome; also checked that run() does not return without a cause.",
+  "note": "Trusted: harness, reference codec, model. Error variants are asserted only where the property names them.",
+  "technique": RM + "fault injection at enumerated points with an expected-outcome oracle"},
+ "C14": {
+  "text": "drop(context) was injected at every step of every bounded path; afterwards every future and stream was driven by a wake-only executor to quiescence and checked.",
+  "note": "Trusted: harness, model. `Pending forever` is decided as `pending at quiescence with no wake outstanding` in the closed world of the harness.",
+  "technique": RM + "crash-point enumeration with a quiescence (no-wake-outstanding) oracle"},
+ "C15": {
+  "text": "Any pending future / stream was cancelled at any point of all bounded interleavings; run() stayed pending, survivors kept their results, slots were counted by an end probe.",
+  "note": "Trusted: harness, model. One residual case is a recorded known finding if listed in known_findings.txt.",
+  "technique": RM + "cancellation-point enumeration with model comparison and quota probes"},
+}
